@@ -157,6 +157,13 @@ Proof.
         eapply Forall2_impl; [|exact F']. intros a b Hb. unfold bound. cbn. exact Hb.
 Qed.
 
+(* ---- sc.registered does not take part in the invariant ------------------------ *)
+Lemma reset_reg_wf g sh ip : wf g sh ip -> wf g (reset_reg sh) ip.
+Proof. intros [ND C]. split; [exact ND | exact C]. Qed.
+
+Lemma finish_ok_wf g sh t : wf g sh [] -> wf g (finish_shared (ROk t) sh) [].
+Proof. apply reset_reg_wf. Qed.
+
 (* ---- a fully linked cache denotes the type universe --------------------------- *)
 Lemma unfold_wf g sh : wf g sh [] ->
   forall k n c, bound sh n c -> unfold k (heap sh) c = gunfold k g n.
@@ -416,7 +423,7 @@ Lemma gstep_inside k g t st th n rest :
     let (sh', o) := lstep k g n (s_sh st) (t_pc th) in
     match o with
     | inl p' => mkState sh' (s_lock st) (s_waitq st) (set_nth (s_thr st) t (with_pc th p'))
-    | inr res => release (mkState sh' (s_lock st) (s_waitq st) (set_nth (s_thr st) t (finish_thread th res)))
+    | inr res => release (mkState (finish_shared res sh') (s_lock st) (s_waitq st) (set_nth (s_thr st) t (finish_thread th res)))
     end.
 Proof.
   intros Ht Hc Hin. unfold gstep. rewrite Ht, Hc.
@@ -429,14 +436,14 @@ Variables (k : nat) (g : graph) (calls : list (list name)).
 Lemma ginv_enter_free st t th n rest :
   ginv k g calls st -> nth_error (s_thr st) t = Some th -> t_calls th = n :: rest ->
   t_pc th = PEnter -> s_lock st = None ->
-  ginv k g calls (mkState (s_sh st) (Some t) (s_waitq st) (set_nth (s_thr st) t (with_pc th PLookup))).
+  ginv k g calls (mkState (reset_reg (s_sh st)) (Some t) (s_waitq st) (set_nth (s_thr st) t (with_pc th PLookup))).
 Proof.
   intros I Ht Hc Hp El. destruct (gi_free _ _ _ _ I El) as (Hq & W & Hall).
   split; cbn [s_sh s_lock s_waitq s_thr].
   - rewrite set_nth_length. exact (gi_len _ _ _ _ I).
   - discriminate.
   - intros h Hh. inversion Hh; subst h. exists (with_pc th PLookup), n, rest.
-    split; [eapply nth_set_eq; eauto|]. split; [exact Hc|]. split; [exact W|].
+    split; [eapply nth_set_eq; eauto|]. split; [exact Hc|]. split; [apply reset_reg_wf; exact W|].
     intros t' th' Hne Ht'. rewrite nth_error_set_nth_neq in Ht' by congruence. left. eapply Hall; eauto.
   - rewrite Hq. split; [constructor|]. intros w. split; [intros []|].
     intros (thw & Hw & Hpw). destruct (Nat.eq_dec w t) as [->|Hne].
@@ -535,10 +542,12 @@ Qed.
 Lemma ginv_finish st t th n rest sh' :
   ginv k g calls st -> s_lock st = Some t -> nth_error (s_thr st) t = Some th -> t_calls th = n :: rest ->
   tinv g (s_sh st) n (t_pc th) -> wf g sh' [] ->
-  ginv k g calls (release (mkState sh' (s_lock st) (s_waitq st)
+  ginv k g calls (release (mkState (finish_shared (result_solo k g n) sh') (s_lock st) (s_waitq st)
                              (set_nth (s_thr st) t (finish_thread th (result_solo k g n))))).
 Proof.
-  intros I El Ht Hc Told W'.
+  intros I El Ht Hc Told W0.
+  assert (W' : wf g (finish_shared (result_solo k g n) sh') []) by (apply finish_ok_wf; exact W0).
+  set (sh'' := finish_shared (result_solo k g n) sh') in *. clearbody sh''. clear W0.
   destruct (gi_held _ _ _ _ I t El) as (thh & nh & resth & Hh & Hch & _ & Hout).
   rewrite Ht in Hh. inversion Hh; subst thh. clear Hh.
   destruct (gi_waitq _ _ _ _ I) as [ND Hw].
@@ -587,7 +596,7 @@ Proof.
     + rewrite !set_nth_length. exact (gi_len _ _ _ _ I).
     + discriminate.
     + intros h Hh. inversion Hh; subst h. exists (with_pc tw PLookup), nw, restw.
-      split; [eapply nth_set_eq; eauto|]. split; [exact Ecw|]. split; [exact W'|].
+      split; [eapply nth_set_eq; eauto|]. split; [exact Ecw|]. split; [apply reset_reg_wf; exact W'|].
       intros t' th' Hne Ht'. rewrite nth_error_set_nth_neq in Ht' by congruence.
       destruct (Nat.eq_dec t' t) as [->|Hne2].
       * rewrite (nth_set_eq _ _ _ _ Ht) in Ht'. inversion Ht'; subst th'. left. reflexivity.
